@@ -82,7 +82,7 @@
  * the current PGN instance values of any PGNs not being sent periodically.
  *
  */
-enum tN2kGroupFunctionCode {
+enum tN2kGroupFunctionCode : uint8_t {
         /**
          * This message requests the transmission of a specific set of data 
          * in a Parameter Group by setting variable parameters within 
@@ -166,7 +166,7 @@ enum tN2kGroupFunctionCode {
  * information, if the Request, Command, Read or Write Group Function 
  * Message can be satisfied by the receiving device.
  */
-enum tN2kGroupFunctionPGNErrorCode {
+enum tN2kGroupFunctionPGNErrorCode : uint8_t {
                             /** Acknowledge positive, no error */
                             N2kgfPGNec_Acknowledge=0,
                             /** PGN is not supported */
@@ -191,7 +191,7 @@ enum tN2kGroupFunctionPGNErrorCode {
  * information, if the Request, Command, Read or Write Group Function 
  * Message can be satisfied by the receiving device.
  */
-enum tN2kGroupFunctionTransmissionOrPriorityErrorCode {
+enum tN2kGroupFunctionTransmissionOrPriorityErrorCode : uint8_t {
                             /** Acknowledge positive, no error */
                             N2kgfTPec_Acknowledge=0,
                             /** Transmit Interval /Priority not supported */
